@@ -642,9 +642,125 @@ def _leading_coef(f: "Form"):
 
 
 # canonical commutative / structural rewrites for function atoms
+# ----------------------------------------------------------------------------- library call signatures
+# name (last component) -> (parameter names, number of leading parameters written positionally in canonical form, defaults)
+# Spelling a parameter positionally or by keyword, or passing a default explicitly, does not change the call.
+_NODEF = object()
+_SIGS = {
+    "fftfreq": (("n", "d"), 1, {"d": 1}),
+    "fft": (("a", "n", "axis", "norm"), 1, {"n": None, "norm": None}),
+    "ifft": (("a", "n", "axis", "norm"), 1, {"n": None, "norm": None}),
+    "fftshift": (("x", "axes"), 1, {"axes": None}),
+    "ifftshift": (("x", "axes"), 1, {"axes": None}),
+    "linspace": (("start", "stop", "num", "endpoint", "retstep", "dtype", "axis"), 3, {"num": 50, "retstep": False, "dtype": None, "axis": 0}),
+    "sum": (("a", "axis", "dtype", "out", "keepdims"), 1, {"axis": None, "dtype": None, "out": None, "keepdims": False}),
+    "mean": (("a", "axis", "dtype", "out", "keepdims"), 1, {"axis": None, "dtype": None, "out": None, "keepdims": False}),
+    "std": (("a", "axis", "dtype", "out", "ddof", "keepdims"), 1, {"axis": None, "dtype": None, "out": None, "ddof": 0, "keepdims": False}),
+    "var": (("a", "axis", "dtype", "out", "ddof", "keepdims"), 1, {"axis": None, "dtype": None, "out": None, "ddof": 0, "keepdims": False}),
+    "argmax": (("a", "axis", "out"), 1, {"axis": None, "out": None}),
+    "argmin": (("a", "axis", "out"), 1, {"axis": None, "out": None}),
+    "cumsum": (("a", "axis", "dtype", "out"), 1, {"axis": None, "dtype": None, "out": None}),
+    "clip": (("a", "a_min", "a_max", "out"), 3, {"out": None}),
+    "tile": (("A", "reps"), 2, {}),
+    "kron": (("a", "b"), 2, {}),
+    "zeros": (("shape", "dtype", "order"), 1, {"order": "C"}),
+    "ones": (("shape", "dtype", "order"), 1, {"order": "C"}),
+    "empty": (("shape", "dtype", "order"), 1, {"order": "C"}),
+    "zeros_like": (("a", "dtype"), 1, {"dtype": None}),
+    "ones_like": (("a", "dtype"), 1, {"dtype": None}),
+    "normal": (("loc", "scale", "size"), 3, {}),
+    "randint": (("low", "high", "size", "dtype"), 1, {"high": None, "size": None}),
+    "concatenate": (("arrays", "axis", "out"), 1, {"axis": 0, "out": None}),
+    "repeat": (("a", "repeats", "axis"), 2, {"axis": None}),
+    "roll": (("a", "shift", "axis"), 2, {"axis": None}),
+    "round": (("a", "decimals"), 1, {"decimals": 0}),
+    "diff": (("a", "n", "axis"), 1, {"n": 1, "axis": -1}),
+    "fftconvolve": (("in1", "in2", "mode", "axes"), 2, {"axes": None}),
+    "sosfiltfilt": (("sos", "x", "axis", "padtype", "padlen"), 2, {"padtype": "odd", "padlen": None}),
+    "bessel": (("N", "Wn", "btype", "analog", "output", "norm", "fs"), 0, {"analog": False}),
+    "sosfreqz": (("sos", "worN", "whole", "fs"), 1, {}),
+    "resample": (("x", "num", "t", "axis", "window", "domain"), 2, {"t": None, "axis": 0, "window": None, "domain": "time"}),
+    "medfilt": (("volume", "kernel_size"), 2, {}),
+    "solve_ivp": (("fun", "t_span", "y0", "method", "t_eval", "dense_output", "events", "vectorized", "args"), 1,
+                  {"t_eval": None, "dense_output": False, "events": None}),
+    "array": (("object", "dtype"), 1, {"dtype": None}),
+    "reshape": (("a", "newshape"), 2, {}),
+    "split": (("ary", "indices_or_sections", "axis"), 2, {"axis": 0}),
+}
+_SIG_ALIASES = {"clip": {"min": "a_min", "max": "a_max"}, "reshape": {"shape": "newshape"}}
+_FILL = {"normal": {"loc": 0, "scale": 1}, "clip": {"a_min": None, "a_max": None}}
+
+
+def _is_default(v, d):
+    if d is None or isinstance(d, (bool, str)):
+        return isinstance(v, Const) and type(v.v) is type(d) and v.v == d
+    if isinstance(v, Form):
+        q = v.rational()
+        return q is not None and q == d
+    return False
+
+
+def _lit(d):
+    if d is None or isinstance(d, (bool, str)):
+        return Const(d)
+    return Form.num(d)
+
+
+def canon_call(short, args, kwargs):
+    """canonical (args, kwargs) of a library call: same call however its parameters are spelt"""
+    args = list(args)
+    kw = dict(kwargs)
+    if short == "standard_normal" and len(args) + len(kw) == 1:
+        size = args[0] if args else kw.get("size")
+        if isinstance(size, TupleV):
+            return "randn", list(size.items), {}
+        if size is not None:
+            return "randn", [size], {}
+    sig = _SIGS.get(short)
+    if sig is None:
+        return short, args, kw
+    params, npos, defaults = sig
+    for a, b in _SIG_ALIASES.get(short, {}).items():
+        if a in kw and b not in kw:
+            kw[b] = kw.pop(a)
+    if len(args) > len(params) or any(k not in params for k in kw):
+        return short, args, kw
+    bound = dict(zip(params, args))
+    if any(k in bound for k in kw):
+        return short, args, kw
+    bound.update(kw)
+    for k, d in defaults.items():
+        if k in bound and _is_default(bound[k], d):
+            del bound[k]
+    # leading parameters positional as long as they are contiguous (missing ones filled from known defaults)
+    out_args = []
+    fill = _FILL.get(short, {})
+    i = 0
+    while i < npos:
+        p = params[i]
+        if p in bound:
+            out_args.append(bound.pop(p))
+        elif p in fill and any(q in bound for q in params[i + 1:npos]):
+            out_args.append(_lit(fill[p]))
+        else:
+            break
+        i += 1
+    if short in ("concatenate", "vstack", "hstack") and out_args and isinstance(out_args[0], TupleV):
+        out_args[0] = TupleV(out_args[0].items, "tuple")
+    return short, out_args, bound
+
+
 def mk_fn(name, args, kwargs=()):
     args = list(args)
     kwargs = sorted(kwargs, key=lambda kv: kv[0])
+    if name in ("lt", "le") and len(args) == 2 and not kwargs:
+        name, args = ("gt" if name == "lt" else "ge"), [args[1], args[0]]
+    elif name in ("eq", "ne") and len(args) == 2 and not kwargs:
+        args = sorted(args, key=lambda v: repr(vkey(v)))
+    elif name == "not" and len(args) == 1 and isinstance(args[0], Form):
+        a = args[0].single_atom()
+        if a is not None and a[0] == "fn" and a[1] in ("eq", "ne") and not a[3] and args[0] == Form.atom(a):
+            return Form.atom(("fn", "ne" if a[1] == "eq" else "eq", a[2], ()))
     if name == "sqrt" and len(args) == 1 and isinstance(args[0], Form):
         return fpow(args[0], Fraction(1, 2))
     if name == "square" and len(args) == 1 and isinstance(args[0], Form):
